@@ -8,7 +8,7 @@ KEY = {
  "D9": "unknown op", "D11": "minimal quote style", "D12": "copy assignment leaves the target", "D13": "flattening nested containers", "D17": "high-precision numbers that are not valid",
  "D18": "jmespath merge()", "D20": "operator>>=", "D21": "write_bytes_be", "D22": "pack_strings counts bignum", "D23": "null character", "D24": "resumes in the zero state",
  "D25": "string together with its terminator", "D26": "merge_or_update(&&) inserts", "D27": "compares doubles directly", "D29": "stops at the first error", "D30": "allocator-extended move constructor", "D32": "quotes column names in the header row", "D33": "escapes the quote escape character itself", "D34": "tab or space at the start of a record", "D36": "toon reader treats the digits", "D38": "expected_rparen when a function argument", "D39": "unbalanced closing tokens", "D40": "msgpack parser honours the mark level", "D41": "whose text is not a number as plain text",
- "D14": "json_traits for std::tuple", "D42": "reserves at most 4096", "D43": "uri::base() is not noexcept", "D44": "invalid regular expressions in JSONPath", "D45": "negates in the unsigned domain", "D52": "boolean bytes other than 0/1", "D53": "tagged mantissa is not a bignum", "D54": "unknown type marker after", "D55": "decimal point position of a number is computed in 64 bits", "D31": "builds each undo entry", "D58": "zero quotient digit", "D59": "second normalization step", "D60": "underflow were read as", "D61": "float_format fixed without a precision", "D62": "with a signed integer negate in the unsigned domain", "D63": "is a proper prefix of", "D64": "test compares objects member by member regardless of order", "D89": "cbor cursor read_to positioned on a typed array", "D91": "decoding into std::array accepted too few or too many", "D92": "as<std::array<T,N>>() converted objects and scalars", "D93": "streaming decode of macro-described classes mishandled unknown members", "D94": "N_GETTER_SETTER_NAME_TRAITS to_json wrote null", "D95": "null polymorphic shared_ptr/unique_ptr did not round trip", "D96": "milliseconds read from a floating-point epoch_second", "D97": "nanoseconds read from a floating-point epoch value", "D98": "durations with a narrow Rep were converted to Rep before", "D99": "MessagePack timestamps of negative epoch_milli/epoch_nano", "D100": "decode_bson into a vector of a typed-array element type failed", "D101": "try_as<bool>() threw instead of returning", "D102": "non-contiguous containers of fixed-width numbers did not compile", "D90": "try_emplace returned the end iterator", "D71": "json_replace moved the new value", "D72": "jsonpath::get reported 'not found' for the root", "D73": "JSONPath ignored a quoted empty name", "D74": "expression index out of range threw", "D75": "swallowed the character following the parent operator", "D76": "$-rooted item of a union got the path", "D77": "filter expression applied to a non-array", "D78": "projections did not evaluate the right-hand side for null elements", "D79": "sort and sort_by skipped the element type check", "D80": "copy assignment from a json reference read the allocator", "D81": "max_by, min_by and sort_by dropped errors", "D82": "to_number accepted a string with trailing garbage", "D83": "pipe did not end the operators pending on its left", "D84": "function argument following a projection was evaluated", "D85": "compare of null with a json reference compared storage kinds", "D86": "multi-select list after a dot could not start with a wildcard", "D87": "parentheses did not delimit a pipe or a projection", "D88": "literal on the right-hand side of a pipe tripped", "D19": "\"not\" passes the annotations of its failed subschema", "D65": "\"contains\" records items evaluated inside an item", "D66": "const/enum/uniqueItems compare objects member by member", "D67": "reports errors at the enclosing object instead of at the member", "D68": "records properties evaluated inside a member value as evaluated properties of the object", "D69": "throw std::system_error for a big integer instance", "D70": "records a wrong index range when an already evaluated item",
+ "D14": "json_traits for std::tuple", "D42": "reserves at most 4096", "D43": "uri::base() is not noexcept", "D44": "invalid regular expressions in JSONPath", "D45": "negates in the unsigned domain", "D52": "boolean bytes other than 0/1", "D53": "tagged mantissa is not a bignum", "D54": "unknown type marker after", "D55": "decimal point position of a number is computed in 64 bits", "D31": "builds each undo entry", "D58": "zero quotient digit", "D59": "second normalization step", "D60": "underflow were read as", "D61": "float_format fixed without a precision", "D62": "with a signed integer negate in the unsigned domain", "D63": "is a proper prefix of", "D64": "test compares objects member by member regardless of order", "D89": "cbor cursor read_to positioned on a typed array", "D106": "read_next left the white space of the last stream chunk", "D91": "decoding into std::array accepted too few or too many", "D92": "as<std::array<T,N>>() converted objects and scalars", "D93": "streaming decode of macro-described classes mishandled unknown members", "D94": "N_GETTER_SETTER_NAME_TRAITS to_json wrote null", "D95": "null polymorphic shared_ptr/unique_ptr did not round trip", "D96": "milliseconds read from a floating-point epoch_second", "D97": "nanoseconds read from a floating-point epoch value", "D98": "durations with a narrow Rep were converted to Rep before", "D99": "MessagePack timestamps of negative epoch_milli/epoch_nano", "D100": "decode_bson into a vector of a typed-array element type failed", "D101": "try_as<bool>() threw instead of returning", "D102": "non-contiguous containers of fixed-width numbers did not compile", "D90": "try_emplace returned the end iterator", "D71": "json_replace moved the new value", "D72": "jsonpath::get reported 'not found' for the root", "D73": "JSONPath ignored a quoted empty name", "D74": "expression index out of range threw", "D75": "swallowed the character following the parent operator", "D76": "$-rooted item of a union got the path", "D77": "filter expression applied to a non-array", "D78": "projections did not evaluate the right-hand side for null elements", "D79": "sort and sort_by skipped the element type check", "D80": "copy assignment from a json reference read the allocator", "D81": "max_by, min_by and sort_by dropped errors", "D82": "to_number accepted a string with trailing garbage", "D83": "pipe did not end the operators pending on its left", "D84": "function argument following a projection was evaluated", "D85": "compare of null with a json reference compared storage kinds", "D86": "multi-select list after a dot could not start with a wildcard", "D87": "parentheses did not delimit a pipe or a projection", "D88": "literal on the right-hand side of a pipe tripped", "D19": "\"not\" passes the annotations of its failed subschema", "D65": "\"contains\" records items evaluated inside an item", "D66": "const/enum/uniqueItems compare objects member by member", "D67": "reports errors at the enclosing object instead of at the member", "D68": "records properties evaluated inside a member value as evaluated properties of the object", "D69": "throw std::system_error for a big integer instance", "D70": "records a wrong index range when an already evaluated item",
 }
 log = subprocess.run(["git", "-C", "/repo", "log", "--format=%h\t%s"], capture_output=True, text=True).stdout.splitlines()
 p = "/verif/known_findings.json"
